@@ -9,7 +9,7 @@ import random
 from lib import common
 from lib.common import Driver, enc_dict, enc_layout, hx
 
-TARGETS = ["ScsiVerif.Props.C10"]
+TARGETS = ["ScsiVerif.Props.C10", "ScsiVerif.Props.C10b"]
 NEEDS_GEN = False
 
 
